@@ -150,7 +150,12 @@ def schedule_tokens(cr):
         for st in r.steps:
             evs = st["events"]
             upto = st["returned_at"] if st["returned_at"] is not None else len(evs)
-            _, seqs = T.canon(evs[:upto], with_seq=True)
+            can, seqs = T.canon(evs[:upto], with_seq=True)
+            if i in cr.frozen and st is r.steps[-1] and st["returned_at"] is None:
+                # suspended between std::io::copy's fstat pair and its copy_file_range: the
+                # dangling fstats are not a model-level call of their own
+                while can and can[-1][0] == "fstat":
+                    can.pop(); seqs.pop()
             s.update(seqs)
         want.append(s)
     toks = []
@@ -173,6 +178,8 @@ def model_lines(setup, parts_lines, cr, final=None):
         body = [l for l in lines if not l.startswith(CFG_WORDS)]
         for l in S.augment(body, cr.runs[i]):
             out.append("pp %d %s" % (i, l))
+    if cr.frozen:
+        out.append("frozen " + " ".join(str(i) for i in cr.frozen))
     out.append("sched " + " ".join(schedule_tokens(cr)))
     if final:
         out += [l for l in final if not l.startswith(CFG_WORDS)]
